@@ -120,10 +120,71 @@ class NumpyShim:
             return ite(lift(a) >= lift(b), a, b)
         return _np.maximum(a, b)
 
+    def nditer(self, ops, *a, **kw):
+        if any(o is not None and _has_sym(_np.asarray(o, dtype=object) if isinstance(o, Sym) else o) for o in ops):
+            self.used.add("nditer")
+            return _ObjNditer(ops)
+        return _np.nditer(ops, *a, **kw)
+
     @property
     def pi(self):
         c = _ctx()
         return c.pi()
+
+
+class _ObjNditer:
+    """numpy.nditer refuses object arrays without REFS_OK; same iteration protocol for
+    the one pattern hypnotoad uses: nditer([in1, in2, None]) with `result[...] = v`."""
+
+    def __init__(self, ops):
+        ins = [_np.asarray(o, dtype=object) for o in ops if o is not None]
+        shape = _np.broadcast(*ins).shape
+        self.operands = []
+        for o in ops:
+            if o is None:
+                self.operands.append(_np.empty(shape, dtype=object))
+            else:
+                self.operands.append(_np.broadcast_to(_np.asarray(o, dtype=object), shape))
+        self.shape = shape
+
+    def __enter__(self):
+        return self
+
+    def __exit__(self, *a):
+        return False
+
+    def __iter__(self):
+        for idx in _np.ndindex(*self.shape):
+            yield tuple(_Cell(op, idx) for op in self.operands)
+
+
+class _Cell:
+    """0-d view of one element: supports `cell[...] = v` and arithmetic on the value."""
+
+    def __init__(self, arr, idx):
+        self.arr, self.idx = arr, idx
+
+    def __setitem__(self, k, v):
+        self.arr[self.idx] = v
+
+    def __getitem__(self, k):
+        return self.arr[self.idx]
+
+    def _v(self):
+        return self.arr[self.idx]
+
+    def __add__(self, o):
+        return self._v() + o
+
+    __radd__ = __add__
+
+    def __sub__(self, o):
+        return self._v() - o
+
+    def __mul__(self, o):
+        return self._v() * o
+
+    __rmul__ = __mul__
 
 
 @contextlib.contextmanager
